@@ -43,7 +43,11 @@ ALPHABET = [
     ("m0", H("Map", L(0))), ("m1", H("Map", L(1))), ("m*", H("Map", L(None))), ("brk", H("Break")),
 ]
 SYM = dict(ALPHABET)
+SYM.update({"t1h": ("enum", "Header::Text", [("Some", Wire(1))]), "t2h": ("enum", "Header::Text", [("Some", Wire(1))])})
 # t3bad: a definite text whose 3-byte payload is not valid UTF-8
+# t1h / t2h: definite text chunks holding the first and the second half of one two-byte character: neither is valid UTF-8 on its
+# own (RFC 8949 3.2.3: every chunk of an indefinite-length text string is itself a well-formed text string), their concatenation is
+SPLIT = {"t1h": H("Text", L(1)), "t2h": H("Text", L(1))}
 # false@2: simple value 20 in the two-byte form 0xf8 0x14, which RFC 8949 3.3 makes not well-formed
 HEAD_LEN = {"false@2": 2}
 
@@ -89,7 +93,7 @@ def oracle(seq):
             return ("bytes", [("payload", pos[0] - 1)])
         if s == "t2":
             return ("text", [("payload", pos[0] - 1)])
-        if s == "t3bad":
+        if s in ("t3bad", "t1h", "t2h"):
             raise Bad()
         if s in ("b*", "t*"):
             want = "b2" if s == "b*" else "t2"
@@ -148,7 +152,7 @@ class DecoderModel:
         if not self.q:
             return ("Err", ("enum", "ciborium_ll::Error::Io", [OPAQUE]))
         i, h, s = self.q.pop(0)
-        if s in ("b2", "t2", "t3bad"):
+        if s in ("b2", "t2", "t3bad", "t1h", "t2h"):
             self.pending = (i, s)
         self.pos += HEAD_LEN.get(s, 1)
         return ("Ok", _tag_header(h, i, s))
@@ -225,6 +229,17 @@ class DecRun:
                 if isinstance(buf, MutList) and any(isinstance(x, tuple) and x[0] == "badpayload" for x in buf):
                     return ("Err", OPAQUE)
                 if isinstance(buf, MutList):
+                    # half characters are valid only as an adjacent first-half / second-half pair
+                    kinds = [x[0] if isinstance(x, tuple) else None for x in buf]
+                    k = 0
+                    while k < len(kinds):
+                        if kinds[k] == "half1" and k + 1 < len(kinds) and kinds[k + 1] == "half2":
+                            k += 2
+                        elif kinds[k] in ("half1", "half2"):
+                            return ("Err", OPAQUE)
+                        else:
+                            k += 1
+                if isinstance(buf, MutList):
                     s = MutList(buf)
                     s.kind = "str"
                     return ("Ok", s)
@@ -263,7 +278,7 @@ def run_decoder(facts, seq, const_override=None):
                 if model.pending is None:
                     raise Unknown("read_exact without a pending definite string header")
                 i, s = model.pending
-                marker = ("badpayload", i) if s == "t3bad" else ("payload", i)
+                marker = ("badpayload", i) if s == "t3bad" else (("half1", i) if s == "t1h" else (("half2", i) if s == "t2h" else ("payload", i)))
                 if not isinstance(buf, MutList):
                     # `&mut buf[start..]`: the read fills the tail of the named buffer
                     bufbase = None
@@ -381,6 +396,8 @@ TARGETED = [
     ("m*", "u5", "a*", "brk", "brk"), ("m*", "u5", "u5", "u5", "brk"), ("m1", "u5", "brk"), ("a2", "u5", "brk"),
     ("tag", "tag", "tag", "u5"), ("a*", "m*", "t2", "u5", "brk", "brk"), ("m*", "t2", "b2", "t2", "f", "brk"),
     ("a2", "a1", "u5", "m0"), ("m1", "a0", "m*", "brk"), ("a*", "b*", "b2", "brk", "t*", "t2", "brk", "brk"),
+    # a character split across two chunks of an indefinite-length text: each chunk must be valid UTF-8 by itself
+    ("t*", "t1h", "t2h", "brk"), ("t*", "t2", "t1h", "t2h", "brk"), ("t1h",), ("t*", "t1h", "brk"), ("t*", "t2h", "t1h", "brk"),
 ]
 
 
@@ -491,6 +508,8 @@ def failure_class(seq, got, exp):
             return "accepts-nested-indefinite-chunk"
         if "t3bad" in s:
             return "accepts-invalid-utf8"
+        if "t1h" in s or "t2h" in s:
+            return "accepts-character-split-across-chunks"
         if "brk" in s:
             return "accepts-misplaced-break"
         return "accepts-malformed|" + " ".join(s)
